@@ -180,7 +180,7 @@ BeginWrite(res) ==
      THEN /\ res = Ok(0)
           /\ wtx' = [on |-> TRUE, t |-> Latest.t, psp |-> Latest.psp, open |-> {},
                      dirty |-> FALSE, poisoned |-> FALSE, d |-> "imm", base |-> Len(hist),
-                     pspMod |-> FALSE, inval |-> {}, tainted |-> FALSE]
+                     pspMod |-> FALSE, inval |-> {}, tainted |-> FALSE, cur |-> <<>>]
      ELSE /\ IsErr(res)
           /\ UNCHANGED wtx
   /\ UNCHANGED <<hist, dur, inflight, readers, rpend, eph, nextOrd, its, latch>>
@@ -468,6 +468,57 @@ Extract(n, lo, hi, p, cnt, rev, alt, res) ==
          S == {k \in Sel(c, lo, hi) : Holds(p, k)}
      IN /\ ValidTake(res.ok, S, c, cnt, rev, alt)
         /\ SetC(n, [k \in DOMAIN c \ TakenKeys(res.ok) |-> c[k]])
+  /\ Rest
+
+-----------------------------------------------------------------------------
+(* Gap cursors (C18).  A cursor on table n sits in a gap of the sorted key  *)
+(* sequence: L is the set of keys before the gap.  Inserts are accepted iff *)
+(* the key sorts strictly between the gap's neighbours (entries inserted    *)
+(* through the cursor count as neighbours at once, however the             *)
+(* implementation batches them); nothing is ever overwritten.              *)
+
+MaxS(S) == CHOOSE x \in S : \A y \in S : y <= x
+MinS(S) == CHOOSE x \in S : \A y \in S : x <= y
+CurOn == wtx.on /\ wtx.cur # <<>>
+CurC == wtx.t[wtx.cur[1].n].c
+CurL == wtx.cur[1].L
+CurR == DOMAIN CurC \ CurL
+PrevEntry == IF CurL = {} THEN None ELSE <<MaxS(CurL), CurC[MaxS(CurL)]>>
+NextEntry == IF CurR = {} THEN None ELSE <<MinS(CurR), CurC[MinS(CurR)]>>
+SetCur(c, L) == wtx' = [wtx EXCEPT !.t[wtx.cur[1].n].c = c, !.cur = <<[n |-> wtx.cur[1].n, L |-> L]>>]
+InGap(k) == (CurL = {} \/ MaxS(CurL) < k) /\ (CurR = {} \/ k < MinS(CurR))
+
+\* lower_bound_mut(bound) (upper = FALSE) / upper_bound_mut(bound) (upper = TRUE)
+CurOpen(n, b, upper, res) ==
+  /\ WOk(n, "t") /\ wtx.cur = <<>> /\ res = Ok(0)
+  /\ LET c == wtx.t[n].c
+         L == IF upper THEN {k \in DOMAIN c : BelowHi(k, b)} ELSE {k \in DOMAIN c : ~AboveLo(k, b)}
+     IN wtx' = [wtx EXCEPT !.cur = <<[n |-> n, L |-> L]>>]
+  /\ Rest
+
+CurOp(op, k, v, res) ==
+  /\ CurOn
+  /\ CASE op = "peek_next" -> res = Ok(NextEntry) /\ UNCHANGED wtx
+       [] op = "peek_prev" -> res = Ok(PrevEntry) /\ UNCHANGED wtx
+       [] op = "next" -> /\ res = Ok(NextEntry)
+                         /\ IF CurR = {} THEN UNCHANGED wtx ELSE SetCur(CurC, CurL \cup {MinS(CurR)})
+       [] op = "prev" -> /\ res = Ok(PrevEntry)
+                         /\ IF CurL = {} THEN UNCHANGED wtx ELSE SetCur(CurC, CurL \ {MaxS(CurL)})
+       [] op = "ins_before" -> IF InGap(k) THEN res = Ok(0) /\ SetCur(Put(CurC, k, v), CurL \cup {k})
+                                           ELSE IsE(res, "UnorderedKey") /\ UNCHANGED wtx
+       [] op = "ins_after" -> IF InGap(k) THEN res = Ok(0) /\ SetCur(Put(CurC, k, v), CurL)
+                                          ELSE IsE(res, "UnorderedKey") /\ UNCHANGED wtx
+       [] op = "rem_next" -> /\ res = Ok(NextEntry)
+                             /\ IF CurR = {} THEN UNCHANGED wtx ELSE SetCur(Del(CurC, MinS(CurR)), CurL)
+       [] op = "rem_prev" -> /\ res = Ok(PrevEntry)
+                             /\ IF CurL = {} THEN UNCHANGED wtx
+                                ELSE SetCur(Del(CurC, MaxS(CurL)), CurL \ {MaxS(CurL)})
+  /\ Rest
+
+\* close(), or the cursor dropped: pending inserts are in the table
+CurClose(res) ==
+  /\ CurOn /\ res = Ok(0)
+  /\ wtx' = [wtx EXCEPT !.cur = <<>>]
   /\ Rest
 
 -----------------------------------------------------------------------------
